@@ -203,11 +203,16 @@ ADDENDA4 = {
 }
 # rules added in round r7 (DESIGN.md 11.3)
 ADDENDA5 = {
+    'C01': ' Also: the submit overrides take the callable positional-only (C01-11); the per-pass state of ParmapperAsync is created by __iter__ (C01-12).',
+    'C05': ' Also: a timed join of a helper thread does not count as a join (C05-5); join() of mpservice.threading.Thread returns normally only after the OS-level join (C05-12).',
     'C07': ' Also: the clean-up of async_fifo_stream swallows CancelledError and Exception of every cancelled task (C07-9).',
-    'C09': ' Also: the batch size is stored as given, None alone is replaced — finite-domain evaluation of the constructor (C09-12).',
+    'C08': ' Also (C08-2): the consumer moves nothing from the hand-off queue into a second container.',
+    'C09': ' Also: the batch size is stored as given, None alone is replaced — finite-domain evaluation of the constructor (C09-12); the handler that closes a batch catches the time-out classes only (C09-4).',
     'C11': ' Also (C11-2): the join of the worker whose __init__ failed is untimed.',
+    'C13': ' Also (C13-5): MemoryBlock.buf hands out the buffer of the SharedMemory itself.',
     'C14': ' Also: a cache of generated proxy types is keyed by the exposed methods too (C14-15).',
     'C18': ' Also: the responding task leaves its loop only from the handler of the idle request queue (C18-15); the response clock starts after the enqueue call (C18-16).',
+    'C19': ' Also (C19-3): the handler that closes a batch catches queue.Empty only; no positive floor on the remaining time.',
     'C20': ' Also (C20-3): the daemon flag of the log-reader thread evaluates to False for a process that is not a daemon.',
 }
 COMMON_NOTE = COMMON_NOTE + (
